@@ -8,7 +8,7 @@ from ..agree import _expand
 from ..effects import Effects
 from ..model import AnalysisError, Cls, Func, Repo, is_self_attr, short, walk_no_nested
 from ..report import RuleResult
-from .c04 import _AttrFlow
+from .c04 import _AttrFlow, _strip
 from .common import ancestors, exported_estimators, norm, parents_map, single_defs
 
 ENTRIES = ("fit", "fit_transform", "transform", "__add__")
@@ -145,6 +145,7 @@ def r13_2(repo: Repo) -> RuleResult:
             continue
         flow = _AttrFlow(repo, c)
         needs, writes = flow.summary(tr)
+        needs = {_strip(n) for n in needs}  # a read under a condition is still a read
         # all writes (also conditional ones) made by transform-reachable methods
         all_writes: Set[str] = set()
         for g in repo.reachable_from(c, "transform"):
